@@ -407,6 +407,7 @@ func propC18rest(a *Analysis, r *Registry, b *B) {
 			} else {
 				r.Fail(rB, "graph/graphalg.SimplifyMulti/merge-or-append", b.pos(fn), "parallel edges are not merged by summing weights / new edges not appended with their weight")
 			}
+			propC18simplifyMap(a, r, b, fn, fc)
 			// indexes[n+1] = len(edges)
 			okIdx := false
 			fc.Ctx.Instrs(func(in ssa.Instruction) {
@@ -462,4 +463,240 @@ func appendSites(v ssa.Value) map[int]int {
 	}
 	walk(v)
 	return out
+}
+
+// propC18simplifyMap: the discipline of SimplifyMulti's target → edge-index
+// map, each clause a necessary condition of "parallel edges of ONE node are
+// merged, summing their weights":
+//
+//	key       the map is asked about the target of the edge being visited, gw.Out(n)[i]
+//	merge     the weight is added to an existing edge exactly when the map has the
+//	          target, at the index the map gives, and a new edge is appended
+//	          exactly otherwise (no further condition on either side)
+//	record    a new edge records len(edges) — the index it is about to get — under its target
+//	weight    merged and appended weights are gw.OutWeight(n, i) of that same edge
+//	per-node  the map is emptied (deleted key by key, cleared, or made afresh)
+//	          at the start of every node, before its edges are gone through
+func propC18simplifyMap(a *Analysis, r *Registry, b *B, fn *ssa.Function, fc *FC) {
+	const rule = "B-C18 formula"
+	S := b.X.S
+	name := "graph/graphalg.SimplifyMulti"
+	var lk *ssa.Lookup
+	nlk := 0
+	fc.Ctx.Instrs(func(in ssa.Instruction) {
+		if l, ok := in.(*ssa.Lookup); ok {
+			if _, isMap := l.X.Type().Underlying().(*types.Map); isMap {
+				lk = l
+				nlk++
+			}
+		}
+	})
+	if nlk != 1 || !lk.CommaOk {
+		r.Fail(rule, name+"/map/key", b.pos(fn), "expected one `idx, ok := edgeMap[target]` lookup")
+		return
+	}
+	inner := fc.Ctx.LoopOf(lk.Block())
+	var outer *Loop
+	for _, l := range fc.Ctx.Loops() {
+		if inner != nil && l != inner && l.Body[inner.Header.Index] && (outer == nil || len(l.Body) < len(outer.Body)) && l.Header != inner.Header {
+			outer = l
+		}
+	}
+	if inner == nil || outer == nil {
+		r.Fail(rule, name+"/map/key", a.W.InstrPos(lk), "the lookup is not inside a loop over edges inside a loop over nodes")
+		return
+	}
+	// key: Out(n)[i]
+	key := fc.Val(lk.Index)
+	ka := key.SingleAtom()
+	var nRF, iRF *RF
+	if ka != nil && ka.Name == "idx" {
+		if oa := ka.Args[0].SingleAtom(); oa != nil && oa.Name == "call:Out" && len(oa.Args) == 2 {
+			nRF, iRF = oa.Args[1], ka.Args[1]
+		}
+	}
+	isCounterOf := func(v *RF, l *Loop) bool {
+		for _, ph := range fc.loopPhis(v) {
+			if pa := ph.SingleAtom(); pa != nil && b.X.phiOf[pa.ID] != nil && b.X.phiOf[pa.ID].Block() == l.Header {
+				if c, ok := v.Sub(ph).IsConst(); ok && c.IsInt() {
+					return true
+				}
+			}
+		}
+		return false
+	}
+	if nRF == nil || !isCounterOf(nRF, outer) || !isCounterOf(iRF, inner) {
+		r.Fail(rule, name+"/map/key", a.W.InstrPos(lk), "the map is not asked about the target gw.Out(n)[i] of the edge being visited: key is "+clip(key.String(), 120))
+		return
+	}
+	r.OK(rule, name+"/map/key", a.W.InstrPos(lk), "the lookup key is gw.Out(n)[i], n and i the two loop counters")
+	// the merge store, the appends, the map update
+	var mergeSt *ssa.Store
+	var appE, appW *ssa.Call
+	var upd *ssa.MapUpdate
+	nUpd := 0
+	fc.Ctx.Instrs(func(in ssa.Instruction) {
+		if !inner.Body[in.Block().Index] {
+			return
+		}
+		switch v := in.(type) {
+		case *ssa.Store:
+			if ia, ok := v.Addr.(*ssa.IndexAddr); ok && isFloatType(v.Val.Type()) {
+				if _, isSl := ia.X.Type().Underlying().(*types.Slice); isSl {
+					mergeSt = v
+				}
+			}
+		case *ssa.Call:
+			if bi, ok := v.Call.Value.(*ssa.Builtin); ok && bi.Name() == "append" {
+				if isFloatType(v.Type().Underlying().(*types.Slice).Elem()) {
+					appW = v
+				} else {
+					appE = v
+				}
+			}
+		case *ssa.MapUpdate:
+			if v.Map == lk.X {
+				upd = v
+				nUpd++
+			}
+		}
+	})
+	if mergeSt == nil || appE == nil || appW == nil || upd == nil || nUpd != 1 {
+		r.Fail(rule, name+"/map/merge", a.W.InstrPos(lk), "expected one weight update, one append to each of edges and weights, and one map update per edge")
+		return
+	}
+	var start *ssa.BasicBlock
+	for _, sc := range fc.Ctx.LiveSuccs(inner.Header) {
+		if inner.Body[sc.Index] && fc.Ctx.Dominates(sc, lk.Block()) {
+			start = sc
+		}
+	}
+	if start == nil {
+		start = lk.Block()
+	}
+	found := S.MakeFn("lookupok", fc.Val(lk.X), key)
+	at := S.MakeFn("lookup", fc.Val(lk.X), key)
+	// "the map has the target": the lookup succeeds — or, when the map is kept
+	// across nodes instead of being emptied, succeeds with an index at or after
+	// the node's first edge (len(edges) on entry to the edge loop; indices
+	// recorded for earlier nodes are below it because edges only grows)
+	stale := false
+	haveWhat := "the map has the target"
+	func() {
+		defer func() { recover() }()
+		cm := fc.ReachCondFrom(start, mergeSt.Block())
+		if cm.Equal(found) || b.X.EquivByCases(cm, found, 0) {
+			return
+		}
+		ei, _ := fc.Recurrence(fc.Val(appE.Call.Args[0]))
+		cur := S.And(found, S.Not(S.Cmp("<", at, S.MakeFn("len", ei))))
+		if cm.Equal(cur) || b.X.EquivByCases(cm, cur, 0) {
+			found, stale = cur, true
+			haveWhat = "the map has the target at an index not before the node's first edge"
+		}
+	}()
+	b.guard(rule, name+"/map/merge", func() {
+		cm := fc.ReachCondFrom(start, mergeSt.Block())
+		ok1 := b.EqRF(rule, name+"/map/merge", a.W.InstrPos(mergeSt), cm, found, "the weight is added to an existing edge exactly when "+haveWhat)
+		if ok1 {
+			ia := mergeSt.Addr.(*ssa.IndexAddr)
+			b.EqRF(rule, name+"/map/merge-index", a.W.InstrPos(mergeSt), fc.Val(ia.Index), at, "at the index the map gives")
+			w := fc.Val(mergeSt.Val).Sub(S.MakeFn("idx", fc.Val(ia.X), fc.Val(ia.Index)))
+			b.EqRF(rule, name+"/map/merge-weight", a.W.InstrPos(mergeSt), w, S.MakeFn("call:OutWeight", ka.Args[0].SingleAtom().Args[0], nRF, iRF), "the weight added is gw.OutWeight(n, i)")
+		}
+	})
+	b.guard(rule, name+"/map/append", func() {
+		for _, c := range []*ssa.Call{appE, appW, nil} {
+			var blk *ssa.BasicBlock
+			var pos ssa.Instruction
+			if c != nil {
+				blk, pos = c.Block(), c
+			} else {
+				blk, pos = upd.Block(), upd
+			}
+			what, tag := "a new edge is appended", "/edges"
+			if c == appW {
+				what, tag = "a new weight is appended", "/weights"
+			}
+			if c == nil {
+				what, tag = "the map records the target", "/record"
+			}
+			if !b.EqRF(rule, name+"/map/append"+tag, a.W.InstrPos(pos), fc.ReachCondFrom(start, blk), S.Not(found), what+" exactly unless "+haveWhat) {
+				return
+			}
+		}
+		vals := fc.AppendedValues(appE)
+		if len(vals) != 1 || !vals[0].Equal(key) {
+			r.Fail(rule, name+"/map/append-target", a.W.InstrPos(appE), "the edge appended is not the target looked up")
+		} else {
+			r.OK(rule, name+"/map/append-target", a.W.InstrPos(appE), "the edge appended is the target looked up")
+		}
+		wv := fc.AppendedValues(appW)
+		if len(wv) == 1 {
+			b.EqRF(rule, name+"/map/append-weight", a.W.InstrPos(appW), wv[0], S.MakeFn("call:OutWeight", ka.Args[0].SingleAtom().Args[0], nRF, iRF), "with weight gw.OutWeight(n, i)")
+		} else {
+			r.Fail(rule, name+"/map/append-weight", a.W.InstrPos(appW), "not one weight per new edge")
+		}
+		b.EqRF(rule, name+"/map/record-key", a.W.InstrPos(upd), fc.Val(upd.Key), key, "recorded under the target")
+		b.EqRF(rule, name+"/map/record-index", a.W.InstrPos(upd), fc.Val(upd.Value), S.MakeFn("len", fc.Val(appE.Call.Args[0])), "the recorded index is len(edges) before the append: the index the new edge gets")
+	})
+	// per node: the map is emptied before the node's edges are gone through
+	emptied := ""
+	if mm, ok := lk.X.(*ssa.MakeMap); ok && outer.Body[mm.Block().Index] && !inner.Body[mm.Block().Index] && fc.Ctx.Dominates(mm.Block(), inner.Header) {
+		emptied = "a fresh map is made for every node"
+	}
+	fc.Ctx.Instrs(func(in ssa.Instruction) {
+		c, ok := in.(*ssa.Call)
+		if !ok || emptied != "" {
+			return
+		}
+		bi, isB := c.Call.Value.(*ssa.Builtin)
+		if !isB || len(c.Call.Args) == 0 || c.Call.Args[0] != lk.X {
+			return
+		}
+		blk := c.Block()
+		if !outer.Body[blk.Index] || inner.Body[blk.Index] {
+			return
+		}
+		switch bi.Name() {
+		case "clear":
+			if fc.Ctx.Dominates(blk, inner.Header) {
+				emptied = "clear(map) at the start of every node"
+			}
+		case "delete":
+			// for k := range m { delete(m, k) }: the deleting loop's header dominates the
+			// edge loop, the delete is unconditional in it, the key is the range key
+			dl := fc.Ctx.LoopOf(blk)
+			if dl == nil || dl == outer || !fc.Ctx.Dominates(dl.Header, inner.Header) {
+				return
+			}
+			ex, ok := c.Call.Args[1].(*ssa.Extract)
+			if !ok || ex.Index != 1 {
+				return
+			}
+			nx, ok := ex.Tuple.(*ssa.Next)
+			if !ok {
+				return
+			}
+			rg, ok := nx.Iter.(*ssa.Range)
+			if !ok || rg.X != lk.X || nx.Block() != dl.Header {
+				return
+			}
+			// unconditional: the delete's block is the only body block reached from the header
+			for _, sc := range fc.Ctx.LiveSuccs(dl.Header) {
+				if dl.Body[sc.Index] && sc != blk {
+					return
+				}
+			}
+			emptied = "every key is deleted at the start of every node"
+		}
+	})
+	if emptied == "" && stale {
+		emptied = "entries of earlier nodes are recognised by their index (below the node's first edge) and treated as absent"
+	}
+	if emptied != "" {
+		r.OK(rule, name+"/map/per-node", b.pos(fn), emptied)
+	} else {
+		r.Fail(rule, name+"/map/per-node", b.pos(fn), "the target → edge-index map is not emptied at the start of every node: an edge of a later node would be merged into an earlier node's edge to the same target")
+	}
 }
